@@ -344,7 +344,7 @@ def _kind_sweep_cases(master, facts):
         seen = set()
         chosen = []
         for f in faults.enumerate_faults(world, opts, facts):
-            key = (f["class"], f["kind"], f.get("table"), f.get("field"), f.get("section"), f.get("value") if f["class"] in ("cmdline", "config") else None, f.get("pair"), f.get("frac"))
+            key = (f["class"], f["kind"], f.get("table"), f.get("field"), f.get("section"), f.get("value") if f["class"] in ("cmdline", "config") else None, f.get("pair"), f.get("frac"), f.get("variant"))
             if key in seen:
                 continue
             seen.add(key)
